@@ -31,6 +31,12 @@ def scenario(big: bool = False) -> Any:
     def fin(d: Dict[str, Any]) -> Dict[str, Any]:
         msgs = cm.sort_msgs(d["msgs"])
         A = d["A"]
+        ls = d.pop("long_saturation")
+        if ls:
+            # all slots busy without a gap for a long while (45 s / 100 s) with one more message waiting for a slot the whole time
+            msgs = [{"kind": "async", "at": 0.0, "dur": ls, "out": "ret", "ack": "sync", "timeout": None} for _ in range(A)] + \
+                   [{"kind": "async", "at": 0.1, "dur": 0.1, "out": "ret", "ack": "sync", "timeout": None}] + \
+                   [dict(m, at=cm.r9(m["at"] + ls + 1.0)) for m in msgs[:3]]
         if d.pop("park"):
             # all but the last of the history's waiting functions wait on a future that nothing but the function itself holds strongly
             # (a reply kept in a weak registry); a garbage-collection pass runs before each is woken up (see the harness)
@@ -83,6 +89,7 @@ def scenario(big: bool = False) -> Any:
         "via_api": st.sampled_from([False, False, False, True]),
         "eager_tasks": st.sampled_from([False, False, False, True]),
         "park": st.sampled_from([False, False, False, True]),
+        "long_saturation": st.sampled_from([None] * 7 + [45.0, 100.0]),
         "hook_exc": st.sampled_from(["RuntimeError", "RuntimeError", "BadStrError"]),      # what a failing hook raises: printable or not
     }).map(fin)
 
